@@ -228,7 +228,7 @@ def shards(tier):
                         for broker in ('ack-all', 'silent'):
                             if broker == 'silent' and (late or not early) and not T:
                                 continue
-                            out.append(('persist', {'profile': profile, 'rounds': 1, 'k': 4 if T else 3, 'first': first, 'newwindow': newwindow,
+                            out.append(('persist', {'profile': profile, 'rounds': 1, 'k': 3, 'first': first, 'newwindow': newwindow,
                                                     'early': early, 'late': late, 'broker': broker}))
         for first in KINDS:
             if first in ('advance', 'PUBCOMP') and not T:
@@ -253,7 +253,7 @@ META = {
     'rule': 'persistent-session client, window symbolic; per round up to k free steps from {publish(QoS symbolic 1..2), PUBACK/PUBREC/PUBCOMP with symbolic identifier, '
             'advance(dt symbolic)} cut by a loss at any point; then a rebuilt protocol (optionally setWindowSize(symbolic)), connect(cleanStart symbolic), 0..1 publish before '
             'CONNACK, CONNACK(session byte symbolic), 0..1 publish after; finally a broker that acknowledges everything twice, or stays silent, and 1000 s',
-    'bounds': {'quick': 'one round with k<=3, two rounds with k<=2; variants: the rebuilt connection is lost before its CONNACK; publishes of QoS 0..2; identifier counter placed at 65531..65535 (symbolic)', 'thorough': 'one round with k<=4, two rounds with k<=3'},
+    'bounds': {'quick': 'one round with k<=3, two rounds with k<=2; variants: the rebuilt connection is lost before its CONNACK; publishes of QoS 0..2; identifier counter placed at 65531..65535 (symbolic)', 'thorough': 'one round with k<=3 in every option combination (silent broker included), variants with k<=4, two rounds with k<=3 from every first step'},
     'stubs': ['fake transport with asynchronous loss', 'twisted task.Clock', 'jitter: fixed sequence'],
     'outside': ['more than two losses in a row', 'subscribe/unsubscribe across the loss (C07)'],
     'assumptions': ['acknowledgement types fit the exchange they may address'],
